@@ -1,0 +1,19 @@
+//go:build verif
+
+// Machine-checked contracts for package parser. Comment-only file read by
+// /verif/bin/evyvc (see /verif/DESIGN.md section 2.2).
+
+package parser
+
+// Node accessors are plain getters on immutable trees.
+//@ iface (n Node) Token() (t *lexer.Token)
+//@   trusted
+//@   modifies nothing
+
+//@ iface (n Node) Type() (t *Type)
+//@   trusted
+//@   modifies nothing
+
+//@ iface (n Node) String() (s string)
+//@   trusted
+//@   modifies nothing
